@@ -78,6 +78,7 @@ def covered_code_changes(ck):
             ck.cov["generated_recursive_functions"] = ff["recursive"]
             ck.cov["generated_intro_facts"] = ff["intro_facts"]
             ck.cov["generated_process_dependent_calls"] = ff["process_dependent"]
+            ck.cov["generated_converter_facts"] = ff.get("converter_facts")
         except Exception as e:  # noqa: BLE001
             ck.broken("translator", "translator/front_facts.py could not read src/spox", f"{type(e).__name__}: {e}")
         ck.cov["generated_build_statements"] = info["ir"]
